@@ -529,4 +529,299 @@ theorem C11_wildcard_no_separator (o : GlobOpts) (hsep : o.literalSeparator = tr
     matchToks o (.star :: ts) ('/' :: rest) sep = matchToks o ts ('/' :: rest) sep := by
   simp [matchToks, starLoop, hsep]
 
+/-! ## termination: every load ends in `ok` or `err` (cycles in `err RecursiveInclude`) — reused by C06 -/
+
+theorem loadEntries_status (fs : FSI) (rec : Path → LoadRes) (cp : Path) (P : Outcome LoadErr Unit → Prop)
+    (hok : P (.ok ())) (herr : ∀ e, P (.err e)) (hglob : ∀ s, P ((fs.glob s).map' fun _ => ()))
+    (h : ∀ q, P (rec q).status) : ∀ es, P (loadEntriesWith fs rec cp es).status := by
+  have hincl : ∀ g, P (loadInclude fs rec cp g).status := by
+    intro g
+    unfold loadInclude
+    cases hp : parent cp with
+    | none => exact herr _
+    | some dir =>
+      simp only
+      have hg' := hglob (joinStr dir g)
+      cases hg : fs.glob (joinStr dir g) with
+      | ok paths =>
+        simp only
+        by_cases he : paths.isEmpty = true
+        · simp only [he, if_true]; exact herr _
+        · simp only [he]; exact loadList_status rec P hok h _
+      | err e => exact herr _
+      | panic s => simpa [hg, Outcome.map'] using hg'
+      | fuelOut => simpa [hg, Outcome.map'] using hg'
+  intro es
+  induction es with
+  | nil => simpa [loadEntriesWith, LoadRes.done] using hok
+  | cons e es ih =>
+    cases e with
+    | «include» g =>
+      simp only [loadEntriesWith]
+      by_cases h1 : (loadInclude fs rec cp g).status = .ok ()
+      · rw [(andThen_delivered_of_ok _ _ h1).2]; exact ih
+      · rw [andThen_of_not_ok _ _ h1]; exact hincl g
+    | _ => simpa [loadEntriesWith] using ih
+
+/-- **C11_terminates.**  Let `readable` list every path the file system can read.  With fuel above its length, a load never
+runs out of fuel and never panics (provided `read`/`glob` themselves do not): it ends in `ok` or in a `LoadError`.
+The include stack holds distinct readable files, so the recursion depth is at most `readable.length`. -/
+theorem C11_terminates (fs : FSI) (readable : List Path)
+    (hread : ∀ q c, fs.read q = .ok c → q ∈ readable)
+    (hreadc : ∀ q, (fs.read q).crashes = false) (hglobc : ∀ s, (fs.glob s).crashes = false) :
+    ∀ n stack p, stack.Nodup → (∀ q ∈ stack, q ∈ readable) → readable.length < n + stack.length →
+      (loadFile fs n stack p).status.crashes = false := by
+  intro n
+  induction n with
+  | zero =>
+    intro stack p hnd hsub hlen
+    have := length_le_of_nodup_subset stack readable hnd hsub
+    omega
+  | succ n ih =>
+    intro stack p hnd hsub hlen
+    rw [loadFile]
+    by_cases hs : fs.canon p ∈ stack
+    · simp [hs, LoadRes.fail, Outcome.crashes]
+    · simp only [hs, if_false]
+      have hrc := hreadc (fs.canon p)
+      cases hr : fs.read (fs.canon p) with
+      | ok content =>
+        simp only
+        have hrec : ∀ q, (loadFile fs n (fs.canon p :: stack) q).status.crashes = false := by
+          intro q
+          refine ih _ q (List.nodup_cons.2 ⟨hs, hnd⟩) ?_ (by simp only [List.length_cons]; omega)
+          intro q' hq'
+          rcases List.mem_cons.1 hq' with rfl | hq'
+          · exact hread _ _ hr
+          · exact hsub q' hq'
+        have hloop := loadEntries_status fs _ (fs.canon p) (fun st => st.crashes = false) rfl (fun _ => rfl)
+          (fun s => by have := hglobc s; cases hg : fs.glob s <;> simp_all [Outcome.map', Outcome.crashes])
+          hrec content.entries
+        by_cases h1 : (loadEntriesWith fs (fun q => loadFile fs n (fs.canon p :: stack) q) (fs.canon p) content.entries).status = .ok ()
+        · rw [(andThen_delivered_of_ok _ _ h1).2]
+          by_cases hp : content.parseErr = true <;> simp [hp, LoadRes.fail, LoadRes.done, Outcome.crashes]
+        · rw [andThen_of_not_ok _ _ h1]; exact hloop
+      | err e => simp [LoadRes.fail, Outcome.crashes]
+      | panic s => simp [hr, Outcome.crashes] at hrc
+      | fuelOut => simp [hr, Outcome.crashes] at hrc
+
+theorem C11_terminates_load (fs : FSI) (readable : List Path)
+    (hread : ∀ q c, fs.read q = .ok c → q ∈ readable)
+    (hreadc : ∀ q, (fs.read q).crashes = false) (hglobc : ∀ s, (fs.glob s).crashes = false)
+    (fuel : Nat) (hfuel : readable.length < fuel) (root : Path) : (load fs fuel root).status.crashes = false :=
+  C11_terminates fs readable hread hreadc hglobc fuel [] root List.nodup_nil (by simp) (by simpa using hfuel)
+
+/-- **C11_cycle.**  A file that (transitively) includes a file already being loaded ends the load with
+`RecursiveInclude`, delivering nothing more. -/
+theorem C11_cycle (fs : FSI) (n : Nat) (stack : List Path) (p : Path) (h : fs.canon p ∈ stack) :
+    loadFile fs (n + 1) stack p = ⟨[], .err (.recursiveInclude (fs.canon p))⟩ := by
+  simp [loadFile, h, LoadRes.fail]
+
+/-- a file that includes itself, whatever else it holds, cannot be expanded and fails to load with any fuel ≥ 2. -/
+theorem C11_self_include (fs : FSI) (hc : ∀ p, fs.canon (fs.canon p) = fs.canon p) (p dir : Path) (g : String)
+    (pre post : List Entry) (perr : Bool) (hpre : ∀ e ∈ pre, isInclude e = false)
+    (hr : fs.read (fs.canon p) = .ok ⟨pre ++ .include g :: post, perr⟩) (hdir : parent (fs.canon p) = some dir)
+    (hglob : fs.glob (joinStr dir g) = .ok [fs.canon p]) (n : Nat) :
+    (loadFile fs (n + 2) [] p).status = .err (.recursiveInclude (fs.canon p)) := by
+  have hplain : ∀ (rec : Path → LoadRes) (es : List Entry), (∀ e ∈ es, isInclude e = false) →
+      loadEntriesWith fs rec (fs.canon p) es = ⟨es.map (fun e => (fs.canon p, e)), .ok ()⟩ := by
+    intro rec es
+    induction es with
+    | nil => intro _; rfl
+    | cons e es ih =>
+      intro h
+      have ih' := ih (fun e' he' => h e' (List.mem_cons_of_mem _ he'))
+      cases e with
+      | «include» g' => have := h (.include g') (by simp); simp [isInclude] at this
+      | _ => simp [loadEntriesWith, ih']
+  have happ : ∀ (rec : Path → LoadRes) (as bs : List Entry), (∀ e ∈ as, isInclude e = false) →
+      (loadEntriesWith fs rec (fs.canon p) (as ++ bs)).status = (loadEntriesWith fs rec (fs.canon p) bs).status := by
+    intro rec as bs
+    induction as with
+    | nil => intro _; rfl
+    | cons e as ih =>
+      intro h
+      have ih' := ih (fun e' he' => h e' (List.mem_cons_of_mem _ he'))
+      cases e with
+      | «include» g' => have := h (.include g') (by simp); simp [isInclude] at this
+      | _ => simp [loadEntriesWith, ih']
+  rw [loadFile]
+  simp only [List.not_mem_nil, if_false, hr]
+  have hinner : (loadEntriesWith fs (fun q => loadFile fs (n + 1) [fs.canon p] q) (fs.canon p)
+      (pre ++ .include g :: post)).status = .err (.recursiveInclude (fs.canon p)) := by
+    rw [happ _ pre _ hpre]
+    simp [loadEntriesWith, loadInclude, hdir, hglob, sortPaths, insertPath, loadListWith, loadFile, hc, LoadRes.fail,
+      LoadRes.andThen]
+  rw [andThen_of_not_ok _ _ (by rw [hinner]; simp)]
+  exact hinner
+
+/-! ## `FakeFileSystem::canonicalize_path` is idempotent (the law the completeness theorems ask for) -/
+
+def isNormal : Comp → Bool
+  | .normal _ => true
+  | _ => false
+
+/-- canonical shape: normal components, optionally preceded by the root. -/
+def Canonical (p : Path) : Prop := ∃ ns : List Comp, (∀ c ∈ ns, isNormal c = true) ∧ (p = ns ∨ p = .root :: ns)
+
+theorem canonStep_canonical (ret : Path) (c : Comp) (h : Canonical ret) : Canonical (canonStep ret c) := by
+  obtain ⟨ns, hns, hp⟩ := h
+  cases c with
+  | cur => exact ⟨ns, hns, hp⟩
+  | root => exact ⟨[], by simp, Or.inr rfl⟩
+  | normal s =>
+    refine ⟨ns ++ [.normal s], ?_, ?_⟩
+    · intro c hc
+      rcases List.mem_append.1 hc with h | h
+      · exact hns c h
+      · simp at h; subst h; rfl
+    · rcases hp with rfl | rfl <;> simp [canonStep, push]
+  | parent =>
+    simp only [canonStep, pop, parent]
+    rcases hp with hp | hp
+    · subst hp
+      cases hl : List.getLast? ret with
+      | none => simp; exact ⟨ret, hns, Or.inl rfl⟩
+      | some c =>
+        have hc : c ∈ ret := List.mem_of_getLast? hl
+        have hcn := hns c hc
+        cases c <;> simp [isNormal] at hcn
+        simp
+        exact ⟨ret.dropLast, fun c hc => hns c (List.dropLast_subset _ hc), Or.inl rfl⟩
+    · subst hp
+      cases ns with
+      | nil => simp; exact ⟨[], by simp, Or.inr rfl⟩
+      | cons a as =>
+        have : (Comp.root :: a :: as).getLast? = (a :: as).getLast? := by simp [List.getLast?_cons_cons]
+        rw [this]
+        cases hl : (a :: as).getLast? with
+        | none => simp at hl
+        | some c =>
+          have hc : c ∈ (a :: as) := List.mem_of_getLast? hl
+          have hcn := hns c hc
+          cases c <;> simp [isNormal] at hcn
+          simp
+          refine ⟨(a :: as).dropLast, fun c hc => hns c (List.dropLast_subset _ hc), Or.inr ?_⟩
+          exact List.dropLast_cons_of_ne_nil (l := a :: as) (by simp)
+
+theorem foldl_canonical (p : Path) : ∀ ret, Canonical ret → Canonical (p.foldl canonStep ret) := by
+  induction p with
+  | nil => intro ret h; exact h
+  | cons c p ih => intro ret h; exact ih _ (canonStep_canonical ret c h)
+
+theorem canonFake_canonical (p : Path) : Canonical (canonFake p) :=
+  foldl_canonical p [] ⟨[], by simp, Or.inl rfl⟩
+
+theorem foldl_normals (ns : List Comp) (hns : ∀ c ∈ ns, isNormal c = true) :
+    ∀ ret, ns.foldl canonStep ret = ret ++ ns := by
+  induction ns with
+  | nil => intro ret; simp
+  | cons c ns ih =>
+    intro ret
+    have hc := hns c (by simp)
+    cases c <;> simp [isNormal] at hc
+    simp [List.foldl_cons, canonStep, push, ih (fun c hc => hns c (List.mem_cons_of_mem _ hc))]
+
+theorem canonFake_of_canonical (p : Path) (h : Canonical p) : canonFake p = p := by
+  obtain ⟨ns, hns, hp | hp⟩ := h
+  · subst hp; simp [canonFake, foldl_normals p hns]
+  · subst hp; simp [canonFake, List.foldl_cons, canonStep, push, foldl_normals ns hns]
+
+/-- `FakeFileSystem::canonicalize_path` is idempotent; its results contain no `.`/`..` components. -/
+theorem canonFake_idem (p : Path) : canonFake (canonFake p) = canonFake p :=
+  canonFake_of_canonical _ (canonFake_canonical p)
+
+/-- **C11 on the in-memory file system**: load = expand, for every tree, glob options and fuel. -/
+theorem C11_fake_load_eq_expand (o : GlobOpts) (t : Tree) (fuel : Nat) (root : Path) (xs : Tagged) :
+    load (fakeFS o t) fuel root = ⟨xs, .ok ()⟩ ↔ expand (fakeFS o t) fuel root = some xs :=
+  C11_load_eq_expand (fakeFS o t) (fun p => canonFake_idem p) fuel root xs
+
+theorem readRaw_crashes (r : Option Raw) : (readRaw r).crashes = false := by
+  cases r with
+  | none => rfl
+  | some r => cases r <;> rfl
+
+/-- **C11 termination on the in-memory file system**: with more fuel than there are files, a load of any tree —
+cyclic or not — ends in `ok` or `err`. -/
+theorem C11_fake_terminates (o : GlobOpts) (t : Tree) (fuel : Nat) (hfuel : t.files.length < fuel) (root : Path) :
+    (load (fakeFS o t) fuel root).status.crashes = false := by
+  refine C11_terminates_load (fakeFS o t) (t.files.map fun kv => parsePath kv.1) ?_ ?_ ?_ fuel (by simpa using hfuel) root
+  · intro q c h
+    simp only [fakeFS, Tree.lookup] at h
+    cases hf : t.files.find? (fun kv => parsePath kv.1 = q) with
+    | none => simp [hf, readRaw] at h
+    | some kv =>
+      have hm := List.mem_of_find?_eq_some hf
+      have hq := List.find?_some hf
+      simp at hq
+      exact List.mem_map.2 ⟨kv, hm, hq⟩
+  · intro q; exact readRaw_crashes _
+  · intro s
+    simp only [fakeFS, fakeGlob]
+    split
+    · rfl
+    · rfl
+    · simp only [Tree.extGlob]; split <;> rfl
+
+/-! ## non-vacuity: the hypotheses are met by concrete trees, and the negative cases really fail -/
+
+section examples
+private def pMain : Path := [.root, .normal "r", .normal "main.ledger"]
+private def pA : Path := [.root, .normal "r", .normal "sub", .normal "a.ledger"]
+private def pB : Path := [.root, .normal "r", .normal "sub", .normal "b.ledger"]
+private def pX : Path := [.root, .normal "r", .normal "x.ledger"]
+
+/-- `/r/main.ledger` = `; m1`, `include sub/*.ledger`, `; m2`; `/r/sub/a.ledger` = `; a`;
+`/r/sub/b.ledger` = `; b`, `include ../x.ledger`; `/r/x.ledger` = `; x`.  The glob answers in reverse order. -/
+private def exFS : FSI where
+  canon := canonFake
+  read p :=
+    if p = pMain then .ok ⟨[.comment "m1", .include "sub/*.ledger", .comment "m2"], false⟩
+    else if p = pA then .ok ⟨[.comment "a"], false⟩
+    else if p = pB then .ok ⟨[.comment "b", .include "../x.ledger"], false⟩
+    else if p = pX then .ok ⟨[.comment "x"], false⟩
+    else .err .notFound
+  glob s := if s = "/r/sub/*.ledger" then .ok [pB, pA] else if s = "/r/sub/../x.ledger" then .ok [pX ++ []] else .ok []
+
+/-- the same with `x.ledger` including `main.ledger` again (a cycle through three files). -/
+private def exCyc : FSI where
+  canon := canonFake
+  read p :=
+    if p = pMain then .ok ⟨[.comment "m1", .include "sub/*.ledger", .comment "m2"], false⟩
+    else if p = pA then .ok ⟨[.comment "a"], false⟩
+    else if p = pB then .ok ⟨[.comment "b", .include "../x.ledger"], false⟩
+    else if p = pX then .ok ⟨[.include "main.ledger"], false⟩
+    else .err .notFound
+  glob s := if s = "/r/sub/*.ledger" then .ok [pB, pA] else if s = "/r/sub/../x.ledger" then .ok [pX]
+    else if s = "/r/main.ledger" then .ok [pMain] else .ok []
+
+-- C11_expand / C11_split / C11_order: the load succeeds, entries come in place and in sorted order, tagged by file
+example : (load exFS 3 pMain).status = .ok () ∧
+    (load exFS 3 pMain).delivered.map (·.1) = [pMain, pA, pB, pX, pMain] ∧
+    ((load exFS 3 pMain).delivered.map fun x => isInclude x.2) = [false, false, false, false, false] ∧
+    (expand exFS 3 pMain).isSome = true ∧ (expand exFS 2 pMain).isSome = false := by decide +kernel
+-- C11_terminates / C11_cycle: the cyclic tree ends in RecursiveInclude with fuel 4 (= number of files), not in fuelOut
+example : (load exCyc 4 pMain).status = .err (.recursiveInclude pMain) ∧ (load exCyc 400 pMain).status.crashes = false ∧
+    (load exCyc 3 pMain).status = .fuelOut ∧ (expand exCyc 50 pMain).isSome = false := by decide +kernel
+-- C11_empty: an include that matches nothing
+example : (loadEntriesWith exFS (fun _ => LoadRes.done) pMain [.comment "k", .include "nothing*", .comment "l"]).status =
+    .err (.io .notFound (parsePath (joinStr [.root, .normal "r"] "nothing*"))) := by
+  simpa using congrArg LoadRes.status (C11_empty exFS (fun _ => LoadRes.done) pMain [.root, .normal "r"] "nothing*" [.comment "k"] [.comment "l"]
+    (by decide +kernel) (by decide +kernel) (by simp [isInclude]))
+-- component-wise order differs from string order: `d/x` sorts before `d.e/x` although "d.e/x" < "d/x" as strings
+example : sortPaths [[.normal "d.e", .normal "x"], [.normal "d", .normal "x"]] =
+    [[.normal "d", .normal "x"], [.normal "d.e", .normal "x"]] ∧ "d.e/x" < "d/x" := by decide
+-- dot-files: `*.ledger` and `?a.ledger` do not match `.a.ledger`; `.a*` does; `*.ledger` does match `.ledger` itself
+example : matchToks {} [.star, .lit '.', .lit 'l'] ".a.l".toList true = false ∧
+    matchToks {} [.any, .lit 'a', .lit '.', .lit 'l'] ".a.l".toList true = false ∧
+    matchToks {} [.lit '.', .lit 'a', .star] ".a.l".toList true = true ∧
+    matchToks {} [.star, .lit '.', .lit 'l'] "b.l".toList true = true ∧
+    matchToks {} [.star, .lit '.', .lit 'l'] ".l".toList true = true ∧
+    matchToks {} [.star, .lit '/', .star] "a/b".toList true = true ∧
+    matchToks {} [.star] "a/b".toList true = false := by decide
+-- canonicalize_path
+example : canonFake [.root, .normal "r", .normal "sub", .parent, .cur, .normal "x"] = [.root, .normal "r", .normal "x"] ∧
+    canonFake [.parent, .parent, .normal "a"] = [.normal "a"] ∧ canonFake [.root, .parent] = [.root] := by decide
+end examples
+
 end Okane.Load
